@@ -1,7 +1,7 @@
 (* C08 — treespec inspection, constructors, transform and compose are consistent.
    Statements only; proofs in proofs/SpecProofs.v and proofs/InspectProofs.v. *)
 From OptreeModel Require Import Base Tree Flatten Unflatten Spec ArraySpec Construct ComposeArr TransformArr Repr.
-From OptreeProofs Require Import SpecProofs InspectProofs ArrayProofs ConstructProofs ComposeArrProofs TransformArrProofs ReprProofs.
+From OptreeProofs Require Import SpecProofs InspectProofs ArrayProofs ConstructProofs ComposeArrProofs TransformArrProofs ReprProofs Subst TransformGenProofs.
 
 (* Every treespec flatten returns is the post-order encoding of a well-formed structured treespec
    (arity, num_leaves and num_nodes consistent at every node) whose leaf count is the number of
@@ -166,6 +166,64 @@ Theorem C08_cpp_transform_pass :
   match ss_transform_leaves a (Some b) with Ok j => Ok (spec_of j) | Err e => Err e end.
 Proof. exact arr_transform_leaves_spec. Qed.
 Print Assumptions C08_cpp_transform_pass.
+
+(* the same pass when the leaf function returns a DIFFERENT treespec at every call (f_leaf answering the
+   i-th leaf with bs[i]; theories/TransformArr.v tr_gen with each answer's own pending counters and the
+   per-answer none_is_leaf / first-non-empty-namespace checks in call order): the result is the encoding
+   of the outer tree with its i-th leaf replaced by the i-th answer — the substitution relation of
+   Subst.v, the one unflatten-with-trees-then-flatten produces (C01_unflatten_trees_then_flatten) — with
+   the common namespace, or the option error; the three closing counter checks never fire *)
+Theorem C08_cpp_transform_pass_general :
+  forall a bs t',
+  wf_stree (stree_of a) = true -> Forall (fun b => wf_stree (stree_of b) = true) bs ->
+  Subst (stree_of a) (map stree_of bs) t' ->
+  arr_transform_gen (spec_of a) (map spec_of bs) =
+  match tr_opts_s (ss_nil a) (ss_ns a) bs with
+  | Ok ns => Ok (spec_of {| stree_of := t'; ss_nil := ss_nil a; ss_ns := ns |})
+  | Err e => Err e
+  end.
+Proof. exact arr_transform_gen_spec. Qed.
+Print Assumptions C08_cpp_transform_pass_general.
+
+(* the hypothesis is satisfiable for every outer treespec and every list of one answer per leaf, the
+   substituted tree is unique, well-formed, has the answers' leaves in total and the outer's internal
+   nodes plus the answers' nodes *)
+Theorem C08_transform_general_result :
+  forall t ts, wf_stree t = true -> Forall (fun x => wf_stree x = true) ts -> length ts = st_leaves t ->
+  exists t', Subst t ts t' /\ (forall t'', Subst t ts t'' -> t'' = t') /\
+    wf_stree t' = true /\ st_leaves t' = sum_nat (map st_leaves ts) /\
+    (st_nodes t' + st_leaves t = st_nodes t + sum_nat (map st_nodes ts))%nat.
+Proof.
+  intros t ts W Wts Hl. destruct (subst_exists t W ts Hl) as (t' & HS).
+  destruct (gok _ _ _ HS W Wts) as (W' & L' & N' & Len).
+  exists t'. split; [exact HS|]. split; [intros t'' H2; exact (subst_functional _ _ _ _ W Wts H2 HS)|].
+  split; [exact W'|]. split; [exact L'|]. rewrite <- Len. exact N'.
+Qed.
+Print Assumptions C08_transform_general_result.
+
+(* the option checks accept exactly lists whose none_is_leaf flags all equal the outer's and whose
+   non-empty namespaces (the outer's included) are all the returned one *)
+Theorem C08_transform_general_options :
+  forall nil0 bs common ns, tr_opts nil0 common bs = Ok ns ->
+  Forall (fun b => snil b = nil0 /\ (sns b = 0%Z \/ sns b = ns)) bs /\ (common = 0%Z \/ common = ns).
+Proof. exact tr_opts_ok. Qed.
+Print Assumptions C08_transform_general_options.
+
+(* answering every call with the same treespec is the constant-f_leaf pass: composition *)
+Theorem C08_transform_general_constant :
+  forall a b t', Subst (stree_of a) (repeat (stree_of b) (st_leaves (stree_of a))) t' ->
+  t' = st_compose (stree_of a) (stree_of b).
+Proof. exact transform_gen_repeat. Qed.
+Print Assumptions C08_transform_general_constant.
+
+Example C08_transform_general_example :
+  let leaf := st_leaf in
+  let pair := mkT {| nkind := KdTuple; narity := 2; ndat := DNone; nentries := None; ncustom := None; nleaves := 0; nnodes := 0; norig := None |} [leaf; leaf] in
+  let lst := mkT {| nkind := KdList; narity := 1; ndat := DNone; nentries := None; ncustom := None; nleaves := 0; nnodes := 0; norig := None |} [leaf] in
+  arr_transform_gen {| trav := encode pair; snil := false; sns := 0 |}
+                    [ {| trav := encode lst; snil := false; sns := 2 |}; {| trav := encode pair; snil := false; sns := 0 |} ]
+  = Ok {| trav := encode (mkT (st_node pair) [lst; pair]); snil := false; sns := 2 |}.
+Proof. vm_compute. reflexivity. Qed.
 
 (* REPR. PyTreeSpec::ToStringImpl as serialization.cpp runs it — the agenda machine over the post-order node
    array (theories/Repr.v; the text as a list of tokens: pieces of the documented notation and the texts
